@@ -651,3 +651,23 @@ def build_checks_C17():
                 problems.append(f"src/{fn}: fn {name} names a heap type / allocating call")
     notes.append("source scan: heap types named only in boxed()/to_vec()")
     return problems, "; ".join(notes)
+
+
+def x_hash_layout_independent(cases, outs):
+    """C13: equal contents in the same capacity must feed the hasher identically, whatever the layout.
+    returns [(case index, problem)]"""
+    seen = {}
+    res = []
+    for ci, (case, out) in enumerate(zip(cases, outs)):
+        for op, raw in zip(case, out):
+            if op.split()[0] != "hash":
+                continue
+            l = Line(raw)
+            if l.crash or l.ret.startswith("P:"):
+                continue
+            key = (case[0], tuple(v for _, v in l.logical()))
+            if key in seen and seen[key][0] != l.ret:
+                res.append((ci, f"`hash` of contents {list(key[1])} in `{case[0]}` feeds {l.ret} in this layout "
+                                f"(front position {l.start}) but {seen[key][0]} in another (front position {seen[key][1]})"))
+            seen.setdefault(key, (l.ret, l.start))
+    return res
